@@ -1,5 +1,6 @@
 import AcqVerif.Tiff.DeviceLemmas
 import AcqVerif.Tiff.Ties
+import AcqVerif.Tiff.DescLemmas
 /-!
 # C15 — TIFF writers produce valid BigTIFF files that round-trip every frame
 
@@ -117,6 +118,25 @@ theorem C15_description (cfg : Cfg) (i : Nat) (f : Frame) :
 
 example : descOf cfg0 0 f0 ≠ descOf cfg0 1 f0 := by
   rw [C15_description, C15_description]; decide
+
+/-- Semantically: an independent scanner of the JSON text (`TiffRead.parseDescription`: literal keys, numbers as
+runs of decimal digits) applied to the description of page `i` (without its terminating NUL) returns frame `i`'s
+`frame_id`, `hardware_frame_id`, `timestamps.runtime`, `timestamps.hardware`, and as `metadata` exactly the user's
+metadata on page 0 — no `metadata` key on any other page, nor when the user gave none. -/
+theorem C15_description_parses (cfg : Cfg) (frames : List Frame) (i : Nat) (h : i < frames.length) :
+    ∃ pg, (expectedPages cfg frames)[i]? = some pg ∧ pg.description.getLast? = some 0 ∧
+      parseDescription pg.description.dropLast =
+        some ⟨frames[i].frameId, frames[i].hwFrameId, frames[i].tsAcq, frames[i].tsHardware,
+              if i = 0 ∧ cfg.metadata ≠ [] then some cfg.metadata else none⟩ := by
+  obtain ⟨L, nxt, hp⟩ := pagesFrom_getElem? cfg K.sizeofHeader 0 frames i h
+  refine ⟨_, hp, by simp [pageOf], ?_⟩
+  have := parse_descOf cfg (0 + i) frames[i]
+  simpa [pageOf] using this
+
+example : ∃ pg, (expectedPages cfg0 [f0, f1])[0]? = some pg ∧
+    parseDescription pg.description.dropLast = some ⟨7, 2 ^ 64 - 1, 10 ^ 19, 12345, some cfg0.metadata⟩ := by
+  obtain ⟨pg, h1, _, h3⟩ := C15_description_parses cfg0 [f0, f1] 0 (by decide)
+  exact ⟨pg, h1, h3⟩
 
 /-! ## (2) the chain -/
 
